@@ -9,6 +9,8 @@ import ParryModel.C18.Theorems7
 import ParryModel.C18.Theorems8
 import ParryModel.C18.Theorems9
 import ParryModel.C18.Theorems10
+import ParryModel.C18.Theorems11
+import ParryModel.C18.Theorems12
 /-!
 # C18 theorems: `clip` and the VHACD loop partition their input, for every plane, oracle, depth and voxel set;
 the number of parts is at most `2^depth ≤ 4 · max_convex_hulls`.
